@@ -237,10 +237,18 @@ impl Property for C09 {
                         for call in 0..base_calls {
                             for o in &outcomes {
                                 for persistent in [false, true] {
+                                  for pending_before in [false, true] {
+                                    if pending_before && !asynchronous {
+                                        continue;
+                                    }
                                     let mut script: Vec<WOut> = (0..call).map(|_| WOut::Accept(chunk)).collect();
+                                    if pending_before {
+                                        // the fault is the first pipe result of a *later* poll of the same send future
+                                        script.push(WOut::Pending);
+                                    }
                                     script.push(o.clone());
                                     let tail = if persistent { o.clone() } else { WOut::Accept(chunk) };
-                                    let what = format!("[{} sender, messages {:?}, chunk {}, fault {:?} at pipe call {}{}]", variant, msgs.values.iter().map(|v| v.show()).collect::<Vec<_>>(), chunk as isize, o, call, if persistent { " (persistent)" } else { "" });
+                                    let what = format!("[{} sender, messages {:?}, chunk {}, fault {:?} at pipe call {}{}{}]", variant, msgs.values.iter().map(|v| v.show()).collect::<Vec<_>>(), chunk as isize, o, call, if persistent { " (persistent)" } else { "" }, if pending_before { ", preceded by a Pending" } else { "" });
                                     st.eval(1);
                                     let (rep, data, _) = match run_send(sh, asynchronous, &msgs, max_len, script, tail, false, budget) {
                                         Ok(x) => x,
@@ -252,7 +260,8 @@ impl Property for C09 {
                                     if let Err((k, m)) = judge_send(name, &msgs, &rep, &data, &what) {
                                         crate::vfail!(k, "{}", m);
                                     }
-                                    st.nontrivial((name, which, variant, chunk, call, format!("{:?}", o), persistent), || json!({"side": "write", "shape": name, "variant": variant, "fault": format!("{:?}", o), "call": call, "persistent": persistent, "results": format!("{:?}", rep.results)}));
+                                    st.nontrivial((name, which, variant, chunk, call, format!("{:?}", o), persistent, pending_before), || json!({"side": "write", "shape": name, "variant": variant, "fault": format!("{:?}", o), "call": call, "persistent": persistent, "pending_before_fault": pending_before, "results": format!("{:?}", rep.results)}));
+                                  }
                                 }
                             }
                         }
@@ -348,6 +357,13 @@ impl Property for C09 {
                 script.insert(pos, o);
                 at_boundary_or_inside |= pos < script.len() - 1;
             }
+            if asynchronous {
+                let np = t.below(5);
+                for _ in 0..np {
+                    let pos = t.below(script.len() + 1);
+                    script.insert(pos, WOut::Pending);
+                }
+            }
             let tail = match t.below(4) {
                 0 => WOut::Err(kind(&mut t)),
                 1 => WOut::Zero,
@@ -376,6 +392,13 @@ impl Property for C09 {
             for _ in 0..nfaults {
                 let pos = t.below(script.len() + 1);
                 script.insert(pos, ROut::Err(kind(&mut t)));
+            }
+            if asynchronous {
+                let np = t.below(5);
+                for _ in 0..np {
+                    let pos = t.below(script.len() + 1);
+                    script.insert(pos, ROut::Pending);
+                }
             }
             let tail = match t.below(5) {
                 0 => {
